@@ -393,6 +393,14 @@ class Handles:
             content = d.get("content")
             okc = content is not None and any(x[0] == "field" and x[2] == cur_field for x in walk(content))
             okt = d.get("file_type", ("",))[0] == "agg" and d["file_type"][2] == "File"
+            # ... the whole buffer, not a window of it: nothing between the cursor's buffer and the published value slices,
+            # truncates or takes a prefix (a session that seeks back and patches a header must not lose what lies behind the cursor)
+            cut = [short(x[1]) if isinstance(x[1], str) else "?" for x in walk(content or ()) if x[0] == "call" and isinstance(x[1], str) and
+                   short(x[1]) in ("Index::index", "IndexMut::index_mut", "slice::split_at", "Vec::truncate", "Vec::split_off", "Vec::drain",
+                                   "slice::get", "Iterator::take", "slice::first", "slice::chunks", "Read::take", "Cursor::position")]
+            n += 1
+            rep.ob(rule_pub, target.id, "the whole buffer is published (no slice / truncation)", okc and not cut, "" if not cut else
+                   "the published bytes are a part of the writer's buffer (%s): data behind the cursor, or beyond the cut, is lost" % cut[0], t.line)
             n += 2
             rep.ob(rule_pub, target.id, "published content originates from the writer's own buffer", okc, "" if okc else
                    "the published bytes do not come from the writer's cursor: %s" % fmt(content)[:60] if content else "no content", t.line)
